@@ -21,10 +21,12 @@
    Whole-content transfers between two storages (Transfer.v, both flavours): [C02_swap_deep] (swap of inline storages / swap2),
    [C02_move_n] (move assignment between inline storages), [C02_relocate_to_new_buffer] (growth, shrink_to_fit, inline <-> heap) never
    commit a lifetime error, exchange / hand over the contents as lists, leave every vacated slot raw, and conserve the number of
-   objects alive ([..._conserves]): nothing is leaked, nothing destroyed twice. *)
+   objects alive ([..._conserves]): nothing is leaked, nothing destroyed twice.  For an element type whose moves throw
+   (SwapThrow.v, MoveThrow.v) [C02_swap_deep_throwing_moves_conserves] / [C02_move_n_throwing_moves_conserves]: whatever move throws,
+   never a lifetime error and the number of objects alive over both storages is what the two unchanged sizes claim. *)
 From Coq Require Import ZArith List Bool.
 From Amc Require Import Slots Erase Alias MemAlgos.
-From Amc Require Throw EmplaceGrow ThrowMove SlotsTR Transfer.
+From Amc Require Throw EmplaceGrow ThrowMove SlotsTR Transfer SwapThrow MoveThrow.
 Import ListNotations.
 
 Theorem C02_insert_count :
@@ -125,3 +127,23 @@ Theorem C02_erase_one :
   | Throw.Threw _ => False
   | Throw.Err _ => False end.
 Proof. exact erase_at_spec. Qed.
+
+(* the same two transfers for an element type whose moves THROW (SwapThrow.v, MoveThrow.v): whatever move throws, no lifetime error, and the
+   number of objects alive over both ranges is what the two (unchanged) sizes claim: nothing leaked, nothing left to be destroyed twice *)
+Theorem C02_swap_deep_throwing_moves_conserves :
+  forall m th t b1 n1 cap1 b2 n2 cap2,
+  Rng m b1 n1 cap1 -> Rng m b2 n2 cap2 -> Disj b1 cap1 b2 cap2 -> n2 <= cap1 -> n1 <= cap2 ->
+  m t = Throw.Raw -> ~ inR b1 cap1 t -> ~ inR b2 cap2 t ->
+  match SwapThrow.swap_deep_mt m th t b1 n1 b2 n2 with
+  | Throw.Done m' _ | Throw.Threw m' => count_live m' b1 cap1 + count_live m' b2 cap2 = n1 + n2 /\ count_live m' t 1 = 0
+  | Throw.Err _ => False end.
+Proof. exact SwapThrow.swap_deep_mt_conserves. Qed.
+
+Theorem C02_move_n_throwing_moves_conserves :
+  forall m th bs n caps bd dn capd,
+  Rng m bs n caps -> Rng m bd dn capd -> Disj bs caps bd capd -> n <= capd ->
+  match MoveThrow.move_n_mt m th bs n bd dn with
+  | Throw.Done m' _ => count_live m' bs caps + count_live m' bd capd = n
+  | Throw.Threw m' => count_live m' bs caps + count_live m' bd capd = n + dn
+  | Throw.Err _ => False end.
+Proof. exact MoveThrow.move_n_mt_conserves. Qed.
